@@ -90,6 +90,9 @@ func isCallTo(in ssa.Instruction, names ...string) bool {
 // eachInstr visits every instruction of fn (not of its closures).
 func eachInstr(fn *ssa.Function, f func(ssa.Instruction)) {
 	for _, b := range fn.Blocks {
+		if b == fn.Recover {
+			continue // synthetic block returning the named results after a recovered panic
+		}
 		for _, in := range b.Instrs {
 			f(in)
 		}
